@@ -12,18 +12,15 @@
    of the field — not on source positions and not on the order of the options. *)
 From Coq Require Import String List NArith ZArith Bool Lia Permutation.
 From J5V.lib Require Import Outcome.
-From J5V.model Require Import RulesDecl RulesWrite RulesRead ProtoPrint ProtoPrintFile ProtoParseFile.
-From J5V.proofs Require Import RulesReadProofs ProtoPrintFileSortProofs ProtoPrintFileSemProofs ProtoPrintFileFullProofs.
+From J5V.model Require Import RulesDecl RulesWrite RulesRead ProtoPrint ProtoPrintFile ProtoParseFile ProtoPrintFileWf RulesTextModel.
+From J5V.proofs Require Import RulesReadProofs ProtoPrintFileSortProofs ProtoPrintFileSemProofs ProtoPrintFileFullProofs ProtoPrintFileWfProofs.
 Import ListNotations.
 
 Section TextClause.
 Variable view : dfield -> fout.
 Hypothesis view_content : forall f f', field_equiv f f' -> c04_proj (view f) = c04_proj (view f').
 
-(* the fields of a message in descriptor order: plain fields and the members of its oneofs *)
-Definition elem_fields (e : delem) : list dfield :=
-  match e with DField f => [f] | DOneof _ _ _ _ fs => fs | _ => [] end.
-Definition body_fields (body : list delem) : list dfield := flat_map elem_fields body.
+(* elem_fields / body_fields (the fields of a message in descriptor order): model/RulesTextModel.v *)
 
 (* the descriptor lists the elements in the order the printer emits them (by source line, or by
    kind and index where there is none) — true of what the j5s compiler produces *)
@@ -113,4 +110,70 @@ Lemma basic_view_content f f' : field_equiv f f' -> c04_proj (basic_view f) = c0
 Proof.
   intros [Hc [Hl [_ [Hn [Hnum [Hj _]]]]]]. unfold basic_view, c04_proj. cbn.
   rewrite Hc, Hl, Hnum, Hj. reflexivity.
+Qed.
+
+(* ---- the concrete view: RulesView.view_field, a decoder of the option trees ------------ *)
+From J5V.model Require Import RulesView.
+From J5V.proofs Require Import RulesViewProofs.
+
+Theorem c04_text_concrete env imp D :
+  wf_dfile imp D ->
+  exists D',
+    parse_file_tokens imp (print_file_tokens (to_symtab (dfile_symtab imp D)) D) = Some D' /\
+    forall k c n o body,
+      In (DMsg k c n o body) (d_body D) -> in_print_order body ->
+      exists k' o' body',
+        In (DMsg k' c n o' body') (d_body D') /\
+        read_object env (map view_field (body_fields body')) = read_object env (map view_field (body_fields body)).
+Proof.
+  apply (c04_text_composed view_field).
+  intros f f' H. rewrite (view_field_content f f' H). reflexivity.
+Qed.
+
+(* ---- the hypotheses about the descriptor, decided ---------------------------------------
+   [wf_dfile_b] (family tool) and [in_print_order_b] (model/RulesTextModel.v) are evaluated
+   on the real descriptor of every generated compile unit by the C04File stream. *)
+Lemma adj_sorted_fold {A} (less : A -> A -> bool) : forall l acc,
+  adj_sorted less (match acc with y :: _ => y :: l | [] => l end) = true ->
+  fold_left (fun acc x => ins_rev less x acc) l acc = rev l ++ acc.
+Proof.
+  induction l as [|x r IH]; intros acc H; [reflexivity|].
+  cbn [fold_left rev]. rewrite <- app_assoc. cbn [app].
+  destruct acc as [|y acc'].
+  - cbn [ins_rev]. apply IH. exact H.
+  - cbn [adj_sorted] in H. apply andb_true_iff in H. destruct H as [Hxy Hr].
+    cbn [ins_rev]. apply negb_true_iff in Hxy. rewrite Hxy. apply IH. exact Hr.
+Qed.
+
+Lemma adj_sorted_isort {A} (less : A -> A -> bool) l : adj_sorted less l = true -> isort less l = l.
+Proof.
+  intro H. unfold isort. rewrite (adj_sorted_fold less l []) by exact H.
+  rewrite app_nil_r. apply rev_involutive.
+Qed.
+
+Lemma in_print_order_b_sound body : in_print_order_b body = true -> in_print_order body.
+Proof.
+  unfold in_print_order_b, in_print_order. intro H. apply andb_true_iff in H. destruct H as [Hs Ho]. split.
+  - unfold sorted_by. apply adj_sorted_isort. exact Hs.
+  - apply Forall_forall. intros e He. rewrite forallb_forall in Ho. specialize (Ho e He).
+    destruct e; try exact I. unfold sorted_by, fkey. apply adj_sorted_isort. exact Ho.
+Qed.
+
+(* The second clause with every hypothesis about the descriptor decided: for a file on
+   which the two checks compute to true, every message reads, after print + parse, to the
+   same properties. *)
+Theorem c04_text_checked env imp D :
+  wf_dfile_b imp D = true -> file_in_order_b D = true ->
+  exists D',
+    parse_file_tokens imp (print_file_tokens (to_symtab (dfile_symtab imp D)) D) = Some D' /\
+    forall k c n o body,
+      In (DMsg k c n o body) (d_body D) ->
+      exists k' o' body',
+        In (DMsg k' c n o' body') (d_body D') /\
+        read_object env (map view_field (body_fields body')) = read_object env (map view_field (body_fields body)).
+Proof.
+  intros Hwf Hord. destruct (c04_text_concrete env imp D (wf_dfile_b_sound imp D Hwf)) as [D' [Hp Hm]].
+  exists D'. split; [exact Hp|]. intros k c n o body Hin. apply (Hm k c n o body Hin).
+  apply in_print_order_b_sound. unfold file_in_order_b in Hord. rewrite forallb_forall in Hord.
+  exact (Hord _ Hin).
 Qed.
